@@ -132,7 +132,11 @@ func init() {
 }
 
 func (p *Path) nativeFor(fn *ssa.Function) (string, bool) {
-	name := fn.String()
+	m := p.eng.meta(fn)
+	return m.native, m.hasNative
+}
+
+func nativeForFn(fn *ssa.Function, name string) (string, bool) {
 	if _, ok := nativeTable[name]; ok {
 		return name, true
 	}
